@@ -58,3 +58,98 @@ func TestSmoke(t *testing.T) {
 		t.Logf("%-28s %6.2fs evals=%v findings=%d", n, time.Since(start).Seconds(), tot, nf)
 	}
 }
+
+// The "exhaustive" labels in the evidence are claims about the generators: check them.
+func TestExhaustiveClaims(t *testing.T) {
+	find := func(name, kind string, quick bool) seg {
+		for _, s := range plan(wops.ByName(name), planCfg{seed: 1, quick: quick}) {
+			if s.kind == kind {
+				return s
+			}
+		}
+		t.Fatalf("%s has no %s segment", name, kind)
+		return seg{}
+	}
+	// binary 8-bit: the 16 lanes together see all 65536 pairs (16 pairs packed per vector)
+	s := find("i8x16.add_sat_s", "exhaustive-binary-8", true)
+	{
+		seen := map[uint64]bool{}
+		for i := 0; i < s.n; i++ {
+			tp := s.gen(i)
+			for lane := 0; lane < 16; lane++ {
+				seen[tp[0].Lane(8, lane)<<8|tp[1].Lane(8, lane)] = true
+			}
+		}
+		if len(seen) != 65536 || s.n != 8192 {
+			t.Errorf("binary-8: %d pairs in %d vectors", len(seen), s.n)
+		}
+	}
+	// extmul_high reads lanes 8..15 only: union over those lanes of pairs must be complete
+	s = find("i16x8.extmul_high_i8x16_u", "exhaustive-binary-8", true)
+	seen := map[uint64]bool{}
+	for i := 0; i < s.n; i++ {
+		tp := s.gen(i)
+		for lane := 8; lane < 16; lane++ {
+			seen[tp[0].Lane(8, lane)<<8|tp[1].Lane(8, lane)] = true
+		}
+	}
+	if len(seen) != 65536 {
+		t.Errorf("extmul_high: %d pairs in the high lanes", len(seen))
+	}
+	// unary 16-bit, low half only
+	s = find("i32x4.extend_low_i16x8_s", "exhaustive-unary", true)
+	seen = map[uint64]bool{}
+	for i := 0; i < s.n; i++ {
+		tp := s.gen(i)
+		for lane := 0; lane < 4; lane++ {
+			seen[tp[0].Lane(16, lane)] = true
+		}
+	}
+	if len(seen) != 65536 {
+		t.Errorf("extend_low: %d values in the low lanes", len(seen))
+	}
+	// extract_lane thorough: every lane sees every value
+	s = find("i16x8.extract_lane_u", "exhaustive-unary", false)
+	for lane := 0; lane < 8; lane++ {
+		seen = map[uint64]bool{}
+		for i := 0; i < s.n; i++ {
+			seen[s.gen(i)[0].Lane(16, lane)] = true
+		}
+		if len(seen) != 65536 {
+			t.Errorf("extract_lane lane %d: %d values", lane, len(seen))
+		}
+	}
+	// binary 16-bit thorough: all values x all boundary values in both orders (over the 8 lanes)
+	s = find("i16x8.mul", "16-bit-all-x-boundary", false)
+	cnt := map[uint64]int{}
+	for i := 0; i < s.n; i++ {
+		tp := s.gen(i)
+		for lane := 0; lane < 8; lane++ {
+			cnt[tp[0].Lane(16, lane)<<16|tp[1].Lane(16, lane)]++
+		}
+	}
+	for _, b := range setI16 {
+		for a := uint64(0); a < 65536; a++ {
+			if cnt[a<<16|b] == 0 || cnt[b<<16|a] == 0 {
+				t.Fatalf("16-bit all x boundary: pair (%x,%x) missing", a, b)
+			}
+		}
+	}
+	if len(setI16) < 90 {
+		t.Errorf("boundary set has only %d values", len(setI16))
+	}
+	t.Logf("16-bit boundary set: %d values; distinct lane pairs in the thorough segment: %d", len(setI16), len(cnt))
+	// adjacent pairs for extadd_pairwise_i8x16
+	s = find("i16x8.extadd_pairwise_i8x16_s", "exhaustive-pairs", true)
+	seen = map[uint64]bool{}
+	for i := 0; i < s.n; i++ {
+		tp := s.gen(i)
+		for k := 0; k < 8; k++ {
+			seen[tp[0].Lane(8, 2*k)<<8|tp[0].Lane(8, 2*k+1)] = true
+		}
+	}
+	if len(seen) != 65536 {
+		t.Errorf("adjacent pairs: %d", len(seen))
+	}
+	t.Logf("set sizes: i32 %d, i64 %d, f32 %d, f64 %d, i8 %d", len(setI32), len(setI64), len(setF32), len(setF64), len(setI8))
+}
